@@ -208,6 +208,14 @@ func uniqS(a []string) []string {
 // the reference cluster AFTER the step was applied).
 func features(c *Case, cl *cluster, steps []step, i int, clause string) string {
 	st := steps[i]
+	if clause == "two-replicas-on-one-server" {
+		// replication 000 skips isGoodMove altogether (known finding); for replicated volumes the
+		// "never move to existing nodes" guard of isGoodMove should have refused
+		if cl.vol(st.Vid).Rp == 0 {
+			return ":replication-000"
+		}
+		return ":replicated-volume"
+	}
 	if clause != "target-without-free-slot" {
 		return ""
 	}
@@ -508,6 +516,12 @@ func run(r *mc.Run) {
 		{"2dc-(2+2)+(1)", [][]int{{2, 2}, {1}}},
 		{"2dc-(3+1)+(1+1)", [][]int{{3, 1}, {1, 1}}},
 	}
+	// three racks in one data center: a replica can cross a rack boundary and its sibling can
+	// then be moved again in the same run (the planners' bookkeeping of the first move decides)
+	threeRacks := []shapeT{
+		{"1dc-3racks-1+1+1", [][]int{{1, 1, 1}}},
+		{"1dc-3racks-1+1+2", [][]int{{1, 1, 2}}},
+	}
 	allRp := []int{0, 1, 10, 100, 11}
 	tiny := []shapeT{{"1dc-1rack-2", [][]int{{2}}}}
 	ssdShapes := []shapeT{{"1dc-1rack-2", [][]int{{2}}}, {"2dc-2+1", [][]int{{2}, {1}}}}
@@ -518,6 +532,8 @@ func run(r *mc.Run) {
 			{shapes: tiny, maxMenu: []int{1, 2, 3}, nVols: 4, rps: []int{0, 1}, cols: []string{"", "c"}},
 			{shapes: tiny, maxMenu: []int{1, 2}, nVols: 2, rps: []int{0, 1}, ssd: true},
 			{shapes: mid, maxMenu: []int{1, 2}, nVols: 2, rps: []int{0, 1, 10, 100}, kinds: []string{"ok", "under"}},
+			{shapes: threeRacks, maxMenu: []int{1, 2}, nVols: 2, rps: []int{0, 10}, kinds: []string{"ok"}, mixedRO: true},
+			{shapes: threeRacks[:1], maxMenu: []int{2, 4}, nVols: 3, rps: []int{0, 10}, kinds: []string{"ok"}, mixedRO: true},
 		}
 	} else {
 		passes = []bounds{
@@ -527,6 +543,8 @@ func run(r *mc.Run) {
 			{shapes: mid, maxMenu: []int{1, 2, 3}, nVols: 2, rps: allRp, mixedRO: true},
 			{shapes: ssdShapes, maxMenu: []int{1, 2}, nVols: 2, rps: allRp, ssd: true},
 			{shapes: big, maxMenu: []int{1, 2}, nVols: 2, rps: allRp, kinds: []string{"ok", "under"}},
+			{shapes: threeRacks, maxMenu: []int{1, 2, 3}, nVols: 2, rps: allRp, mixedRO: true},
+			{shapes: threeRacks, maxMenu: []int{2, 4}, nVols: 3, rps: []int{0, 10}, kinds: []string{"ok"}, mixedRO: true},
 		}
 	}
 	for pi, b := range passes {
